@@ -46,6 +46,14 @@ NEEDS = {
  'C11-d': 'hand-written Node::clone_from does not copy the stamp: after arena.clone_from(&snapshot) positions and ids disagree with links (get_node_id_at None for a linked node / stale generation)',
  'C13-d': 'hand-written PartialEq compares self.last_free_slot with other.first_free_slot: a == a.clone() is false as soon as two slots are on the free list',
  'C14-d': 'IndentWriter overrides write_char with a fast path that does not clear is_first_line: a line break that reaches the writer as a single char makes the continuation line start with a second connector',
+ 'C02-e': 'two clean-ups of the double detach: insert_with_neighbors no longer detaches, checked_prepend detaches only when the node is already the first child: prepend of a node attached elsewhere links it twice (parent cycle, node in two sibling chains, endless traversal)',
+ 'C03-e': 'checked_prepend on a target WITHOUT children takes the append fast path before detaching: an attached node is linked under the target but stays in its old place',
+ 'C05-e': 'checked_prepend drops the detach and picks the future next sibling before unlinking: prepend of the current first child of a parent with >= 2 children trips a debug assertion (release succeeds): debug/release divergence',
+ 'C06-e': 'NodeId::is_removed enumerates cases (tombstone of this id, or a newer live generation) and forgets "slot free again after a later occupant": an id two occupants old reads as not removed while the slot is free',
+ 'C07-e': 'pop_front_free_node clears the tail when one entry REMAINS; free_node starts a new list unless both ends are set: with two free slots, one allocation and one more removal the remaining free slot is lost',
+ 'C09-e': 'preceding_siblings back cursor taken from parent.last_child (copy-paste in a shared helper): forward iteration from the last child stops after one element, backward iteration starts at the wrong end',
+ 'C12-e': 'the removed-parent assertion of append_value moved into insert_last_unchecked, i.e. after the allocation: the refused call has already recycled a slot (or recycles the parent\'s own slot and succeeds)',
+ 'C13-e': 'reserve rounds the capacity up to a power of two and calls reserve_exact(target - capacity): measured from the wrong base, capacity() < count()+k whenever the arena has unused capacity',
  'C14-b': 'write_str fast path for fragments arriving mid-line tests ends_with(newline) instead of contains: a later chunk with an interior newline loses guides and alignment',
 }
 rows = {}
